@@ -370,6 +370,10 @@ def run(ck):
     check_props_change(ck, prog)
     ck.rule("C12-UPD", "update functions: allowed states and validation order")
     check_upd(ck, prog)
+    # the threaded encoder reports a full flush complete only when the output queue is empty (rule shared with C08)
+    from . import C08
+    ck.rule("C12-MTFLUSH", "threaded encoder: LZMA_FULL_FLUSH / LZMA_FINISH complete only with an empty output queue")
+    evaluate(ck, prog, "C12-MTFLUSH", [t for t in C08.TABLE if getattr(t, "oid", "") in ("flush-needs-empty-queue", "finish-needs-index")], floor=1)
     ck.floor("C12-CONV", 3)
     ck.floor("C12-LZMA2", 5)
     ck.floor("C12-UPD", 3)
